@@ -678,7 +678,8 @@ Proof.
     unfold Qr, root_wf, root_refs. cbn [fst snd]. rewrite Hp. split; [exact Hw|exact Hr]. }
   destruct (negb (props_valid ps)); [exact I|].
   destruct (is_oneof_wrapper m); [apply Hfin; reflexivity|].
-  destruct (flatten_cycle st1 (msg_key m) ps); [exact I|].
+  pose proof (flatten_cycle_fuel st1 (msg_key m) ps) as Hfc.
+  destruct (flatten_cycle st1 (msg_key m) ps) as [[|]|]; [exact I| |contradiction].
   destruct (find_psm D m) as [ent|cls]; cbn [lift obind]; [apply Hfin; reflexivity|exact I].
 Qed.
 End Level3.
